@@ -31,8 +31,8 @@ RULE = (
 ASSUMPTIONS = ["alias identifiers never coincide with component names", "one declaration per component"]
 SHARD_TIMEOUT = {"quick": 900, "thorough": 3000}
 
-NAMES = ["M_A", "M_B", "M_C", "core", "util", "runtime", "services", "model", "x1", "importer"]
-DOTTED = ["src.a", "src.a_b", "src.b.c", "src.core.util", "src.ab", "pkg.mod.sub", "src.m1"]
+NAMES = ["M_A", "M_B", "M_C", "core", "util", "runtime", "services", "model", "x1", "importer", "component_registry", "components"]
+DOTTED = ["src.a", "src.a_b", "src.b.c", "src.core.util", "src.ab", "pkg.mod.sub", "src.m1", "components.core", "component.x"]
 WORDS = ["up", "down", "left", "right", "uses"]
 
 
